@@ -131,6 +131,18 @@ function spaces(tier) {
       },
     },
     {
+      name: 'P:after-an-earlier-element',
+      bounds: { primers: Object.keys(PRIMERS), hosts: ['div', 'Comp', 'memberNative'], atoms: 'every dynamic / special atom, ≤1, plus class+style pairs', note: 'an earlier statement lowers another element first (same last tag name in another form, a component, a fragment); the hints of the later element must still cover it' },
+      *gen() {
+        const dynIdx = ALPHA.map((a, i) => i).filter((i) => ALPHA[i].dyn || ALPHA[i].special);
+        for (const pre of Object.keys(PRIMERS)) for (const host of ['div', 'Comp', 'memberNative']) {
+          for (const i of dynIdx) yield { sp: 'F', host, at: [ALPHA[i].id], ton: false, mp: true, pre };
+          yield { sp: 'F', host, at: ['class/dyn', 'style/dyn'], ton: false, mp: true, pre };
+          yield { sp: 'F', host, at: ['id/dyn', 'class/dyn'], ton: false, mp: true, pre };
+        }
+      },
+    },
+    {
       name: 'F:repeated-names',
       bounds: { note: 'the same non-mergeable name written twice with different value kinds (either order), optionally with one more atom; which occurrence wins is observed, not assumed', options: 'transformOn off × mergeProps on/off' },
       *gen() {
@@ -155,6 +167,12 @@ function spaces(tier) {
   return sp;
 }
 
+const PRIMERS = {
+  plainDiv: '__out.pre = () => <div id="p">t</div>;',
+  memberDiv: '__out.pre = () => <ns.div id="p">t</ns.div>;',
+  comp: '__out.pre = () => <Comp class={c1}>{x}</Comp>;',
+  unboundComp: '__out.pre = () => <Comp2 style={st1} />;',
+};
 const byId = new Map(ALPHA.map((a) => [a.id, a]));
 
 function requests(c) {
@@ -163,11 +181,12 @@ function requests(c) {
     return [{ src: E.PRELUDE + `__out.mk = () => (${treeSrc(c.t, names, TREE_ATTRS[c.a || 'none'])});\n`, want: ['eval'], opts: JSON.stringify({ optimize: true }) }];
   }
   const jsx = E.renderJsx(c.host, c.at.map((id) => byId.get(id).src), []);
-  return [{ src: E.renderModule(c.host, jsx), ts: c.at.some((id) => byId.get(id).ts), want: ['eval'], opts: JSON.stringify({ optimize: true, transformOn: c.ton, mergeProps: c.mp }) }];
+  const mod = E.renderModule(c.host, jsx);
+  return [{ src: c.pre ? mod.replace('__out.mk =', PRIMERS[c.pre] + '\n__out.mk =') : mod, ts: c.at.some((id) => byId.get(id).ts), want: ['eval'], opts: JSON.stringify({ optimize: true, transformOn: c.ton, mergeProps: c.mp }) }];
 }
 
 function judgeFlags(c, v, viol) {
-  const isComponent = c.host === 'Comp';
+  const isComponent = c.host === 'Comp' || c.host === 'memberNative';
   const flag = v.patchFlag, dp = v.dynamicProps, props = v.props || {};
   const push = (clause, diff, msg) => viol.push({ clause, diff, msg, observed: { patchFlag: flag, dynamicProps: dp, props: Object.keys(props).sort() } });
   if (flag !== undefined) {
@@ -287,6 +306,7 @@ function* shrinkTree(t) {
 
 function* shrink(c) {
   if (c.sp === 'S') { if (c.a && c.a !== 'none') yield { sp: 'S', t: c.t, a: 'none' }; for (const t of shrinkTree(c.t)) yield { sp: 'S', t, a: c.a }; return; }
+  if (c.pre) yield Object.assign({}, c, { pre: undefined });
   for (let i = 0; i < c.at.length; i++) yield Object.assign({}, c, { at: c.at.slice(0, i).concat(c.at.slice(i + 1)) });
   if (c.host !== 'div') yield Object.assign({}, c, { host: 'div' });
   if (c.ton) yield Object.assign({}, c, { ton: false });
@@ -295,7 +315,7 @@ function* shrink(c) {
 
 function caseKey(c) {
   if (c.sp === 'S') return 'S:' + treeKey(c.t) + (c.a && c.a !== 'none' ? ' @' + c.a : '');
-  return `F:${c.host}[${c.at.join(' ')}]{${c.ton ? 'transformOn' : ''}${c.mp ? '' : ' mergeProps=off'}}`;
+  return `F:${c.host}[${c.at.join(' ')}]{${c.ton ? 'transformOn' : ''}${c.mp ? '' : ' mergeProps=off'}}${c.pre ? ' after ' + c.pre : ''}`;
 }
 
 module.exports = {
